@@ -325,3 +325,96 @@ pub fn c18_cli(ctx: &mut Ctx, acc: &mut Acc) {
         }
     }
 }
+
+/// C05 front-ends: an uncovered sale yields no report from `cgt-tool report` (any format, stdout or --output) nor
+/// from MCP calculate_report / explain_matching; covered ledgers yield one from all of them.
+pub fn c05_frontends(ctx: &mut Ctx, acc: &mut Acc) {
+    need_tool();
+    let ledgers: Vec<(&str, bool, &str, &str)> = vec![
+        ("covered", true, "2023-04-22 BUY X 10 @ 10 FEES 1\n2023-06-01 SELL X 4 @ 20\n", ""),
+        ("covered sell-all then rebuy", true, "2023-04-22 BUY X 10 @ 10\n2023-06-01 SELL X 10 @ 20\n2023-06-05 BUY X 10 @ 11\n", ""),
+        ("sale without purchase", false, "2023-06-01 SELL X 4 @ 20\n", "2023-06-01"),
+        ("oversell", false, "2023-04-22 BUY X 10 @ 10\n2023-06-01 SELL X 11 @ 20\n", "2023-06-01"),
+        ("duplicate sale row", false, "2023-04-22 BUY X 10 @ 10\n2023-06-01 SELL X 10 @ 20\n2023-06-01 SELL X 10 @ 20\n", "2023-06-01"),
+        ("companion matched forward", false, "2023-04-22 BUY X 10 @ 10\n2023-06-01 SELL X 0.5 @ 20\n2023-06-02 SELL X 10 @ 20\n2023-06-03 BUY X 10 @ 13\n", "2023-06-02"),
+        ("repurchase does not legitimise", false, "2023-06-01 SELL X 5 @ 20\n2023-06-10 BUY X 5 @ 10\n", "2023-06-01"),
+        ("oversell after unsplit", false, "2023-04-22 BUY X 10 @ 10\n2023-05-01 UNSPLIT X RATIO 2\n2023-06-01 SELL X 6 @ 20\n", "2023-06-01"),
+        ("second security uncovered", false, "2023-04-22 BUY A 10 @ 10\n2023-06-01 SELL A 4 @ 20\n2023-06-02 SELL B 1 @ 5\n", "2023-06-02"),
+        ("uncovered in a later year", false, "2023-04-22 BUY X 10 @ 10\n2023-06-01 SELL X 4 @ 20\n2025-06-01 SELL X 7 @ 20\n", "2025-06-01"),
+    ];
+    let ctxr: &Ctx = ctx;
+    let part = ledgers
+        .par_iter()
+        .fold(Acc::new, |mut acc, (name, covered, text, date)| {
+            let sc = Scratch::new();
+            sc.all_years_config();
+            sc.write("in.cgt", text.as_bytes());
+            let input = json!({"case": name, "ledger": text});
+            let push = |acc: &mut Acc, clause: &str, detail: String, cx: Value| acc.violation(&ctxr.findings, "C05", viol(clause, input.clone(), detail, cx));
+            for fmt in ["plain", "json", "pdf"] {
+                for with_output in [false, true] {
+                    let mut args = vec!["report", "in.cgt", "--format", fmt];
+                    if with_output {
+                        args.extend(["--output", "out.bin"]);
+                    }
+                    let _ = std::fs::remove_file(sc.path("out.bin"));
+                    let _ = std::fs::remove_file(sc.path("in.pdf"));
+                    let o = run_tool(&args, &sc, T);
+                    acc.states += 1;
+                    acc.validated += 1;
+                    acc.bump("frontend:cli-runs");
+                    let cx = json!({"profile": "front-ends", "args": args, "exit": o.code, "stderr": o.err().chars().take(200).collect::<String>()});
+                    if *covered {
+                        if !o.ok() {
+                            push(&mut acc, "covered-ledger-refused", format!("cgt-tool {} fails on a covered ledger", args.join(" ")), cx);
+                        }
+                    } else {
+                        if o.ok() {
+                            push(&mut acc, "uncovered-ledger-accepted", format!("cgt-tool {} exits 0 on an uncovered ledger", args.join(" ")), cx.clone());
+                        }
+                        if !o.stdout.is_empty() {
+                            push(&mut acc, "partial-report-emitted", format!("{} bytes on stdout although the run fails", o.stdout.len()), cx.clone());
+                        }
+                        if sc.path("out.bin").exists() || sc.path("in.pdf").exists() {
+                            push(&mut acc, "partial-report-emitted", "an output file was written although the run fails".into(), cx.clone());
+                        }
+                        if !o.clean_failure() {
+                            push(&mut acc, "panic", "failure is not clean".into(), cx.clone());
+                        }
+                        if !o.err().contains(date) {
+                            push(&mut acc, "error-does-not-name-sale", format!("the error does not name the date {date}"), cx);
+                        }
+                    }
+                }
+            }
+            let mut m = Mcp::start(&sc);
+            m.send_raw(&tool_call(&json!(1), "calculate_report", json!({"transactions": text})));
+            m.send_raw(&tool_call(&json!(2), "calculate_report", json!({"transactions": text, "year": 2023})));
+            acc.states += 2;
+            acc.validated += 2;
+            acc.bump("frontend:mcp-requests");
+            if !m.wait_for(&["1".into(), "2".into()], Duration::from_secs(15)) {
+                push(&mut acc, "mcp-no-response", "calculate_report not answered".into(), json!({"profile": "front-ends"}));
+            } else {
+                let r1 = tool_text(&m.got["1"][0]);
+                if *covered != r1.is_ok() {
+                    push(&mut acc, if *covered { "covered-ledger-refused" } else { "uncovered-ledger-accepted" }, format!("MCP calculate_report returns {}", if r1.is_ok() { "a report" } else { "an error" }), json!({"profile": "front-ends"}));
+                }
+                if let Err(e) = &r1 {
+                    if !*covered && !e.contains(date) {
+                        push(&mut acc, "error-does-not-name-sale", format!("the MCP error does not name {date}: {}", e.chars().take(200).collect::<String>()), json!({"profile": "front-ends"}));
+                    }
+                }
+                // a year filter never turns an uncovered ledger into a report
+                if !*covered && tool_text(&m.got["2"][0]).is_ok() {
+                    push(&mut acc, "uncovered-ledger-accepted", "MCP calculate_report with year=2023 returns a report for an uncovered ledger".into(), json!({"profile": "front-ends"}));
+                }
+            }
+            let _ = m.finish();
+            acc
+        })
+        .reduce(Acc::new, Acc::merge);
+    let merged = Acc::merge(std::mem::take(acc), part);
+    *acc = merged;
+    ctx.alphabets.push(json!({"name": "front-ends", "description": "10 ledgers (covered and uncovered in different ways) x cgt-tool report {plain,json,pdf} x {stdout, --output} and MCP calculate_report with and without year", "ledgers": ledgers.iter().map(|l| l.0).collect::<Vec<_>>()}));
+}
